@@ -22,10 +22,11 @@ type mergeRes struct {
 	Errs  []mergeErr
 	Panic string
 	Other string
+	Frame string // non-empty: the call changed the slice of files it was given
 }
 
 // realMerge runs the real TransformModuleFilesToModel.
-func realMerge(names, texts []string, schema string) mergeRes {
+func realMerge(names, texts []string, schema string) (out mergeRes) {
 	files := make([]transformer.ModuleFile, len(names))
 	for i := range names {
 		files[i] = transformer.ModuleFile{Name: names[i], Contents: texts[i]}
@@ -35,6 +36,15 @@ func realMerge(names, texts []string, schema string) mergeRes {
 	if p := safely(func() { m, err = transformer.TransformModuleFilesToModel(files, schema) }); p != "" {
 		return mergeRes{Out: L("panic", Q(p)), Panic: p}
 	}
+	// the slice of files belongs to the caller: names and contents must be what was passed in
+	frame := ""
+	for i := range files {
+		if files[i].Name != names[i] || files[i].Contents != texts[i] {
+			frame = "TransformModuleFilesToModel modified element " + strconv.Itoa(i) + " (" + names[i] + ") of the slice of module files it was given"
+			break
+		}
+	}
+	defer func() { out.Frame = frame }()
 	if err == nil {
 		return mergeRes{Out: L("ok", canonModel(m)), Model: m}
 	}
@@ -89,6 +99,9 @@ func mergeWFOp(names, texts []string) string {
 func c07Check(c *Ctx, ms *ModSet, schema string, stream string) mergeRes {
 	c.R.Evaluations++
 	res := realMerge(ms.Names, ms.Texts, schema)
+	if res.Frame != "" {
+		c.OracleFail("c07:frame", map[string]any{"names": ms.Names, "texts": ms.Texts}, res.Frame, "")
+	}
 	input := map[string]any{"files": filesInput(ms), "conflicts": ms.Conflicts, "schema": schema}
 	c.D.Add("corr:merge/"+stream, mergeOp(ms.Names, ms.Texts, schema), res.Out, input)
 	c.D.Add("hyp:FilesWF/"+stream, mergeWFOp(ms.Names, ms.Texts), "(wf true)", input)
